@@ -22,7 +22,7 @@ def bolCtx : SearchSt :=
 
 theorem cexD8_facts :
     (hayFwd bolPage.text 1 2).2 = 2 ∧
-    ((pageFwd bolSpy bolCtx 0x100 bolPage false).1, (pageFwd bolSpy bolCtx 0x100 bolPage false).2.hl) = (1, [(1, 2), (1, 3)]) := by
+    ((pageFwd Shape.repaired bolSpy bolCtx 0x100 bolPage false).1, (pageFwd Shape.repaired bolSpy bolCtx 0x100 bolPage false).2.hl) = (1, [(1, 2), (1, 3)]) := by
   refine ⟨by decide +kernel, by decide +kernel⟩
 
 theorem bolSpy_notbol (t : List Nat) : bolSpy { notBol := true } t = none := by
